@@ -61,8 +61,15 @@ def check_atomic_lock(ctx, prog):
     """R-LOCK on every instantiated member of Atomic<T> that references _x."""
     members = [f for f in prog.functions if f.get('clsp') == 'asl::Atomic' and not f.get('implicit')]
     n = 0
+    RMW = ('operator+=', 'operator-=', 'operator*=', 'operator/=', 'operator%=', 'operator|=', 'operator&=', 'operator^=', 'operator<<=', 'operator>>=', 'operator++', 'operator--')
     for f in members:
         refs = [e for e in fn_exprs(f) if e.get('k') == 'mem' and e.get('f') == '_x']
+        if not refs and f.get('n') in RMW:
+            # composed of other (separately locked) members: the read and the write-back are two critical sections
+            ctx.analysed(f)
+            ctx.violation('R-LOCK', f['pq'], f['n'] + f['sig'] + ':read-modify-write in one critical section', fwhere(f),
+                          '%s does not update the value directly under one Lock but through other members (each locking on its own): an update by another thread between the read and the write-back is lost (instantiation %s)' % (f['pq'], f['q']))
+            continue
         if not refs:
             continue
         if f.get('kind') == 'ctor':
